@@ -111,6 +111,11 @@ def make_sized(spec):
         return np.arange(max(1, n // 8), dtype=np.int64) + u
     if t == "int":
         return u
+    if t == "badpart":
+        # a partition that cannot be stored: its first value (keys are stored in sorted order) has the bytes of the str value
+        # with the same (u, n), its last value is something the codec cannot encode
+        from twosigma.memento.partition import InMemoryPartition
+        return InMemoryPartition({"p": tag + "s" * max(n, 0), "z": {"not", "encodable", u}})
     if t in ("part", "odpart"):
         # a partition whose value "p" has exactly the bytes of the str value with the same (u, n): it must share that object
         from twosigma.memento.partition import InMemoryPartition
